@@ -348,9 +348,21 @@ AudioWidthSigs(site, cfg) ==
     ELSE (IF cfg.ac = "opus" /\ cfg.ch > 255 THEN {LSig("C16", "FieldsFit", site \o "/dOps", "channel-count-exceeds-8-bit-field")} ELSE {})
     \cup (IF cfg.ac = "aac" /\ cfg.rate > 65535 THEN {LSig("C16", "FieldsFit", site \o "/mp4a", "sample-rate-exceeds-16.16-field")} ELSE {})
 
+(* udta/meta/hdlr (ISO/IEC 14496-12 8.4.3 as used by the iTunes-style metadata the library writes): FullBox version 0 *)
+(* flags 0, pre_defined 0, handler_type 'mdir', then three reserved words of which the first carries the 'appl'     *)
+(* manufacturer code of that convention (not judged) and the other two are zero, then a null-terminated name.       *)
+MetaHdlrSigs(F) ==
+    IF ~HasRaw(F, "moov.udta.meta.hdlr") THEN {}
+    ELSE LET b == RawB(F, "moov.udta.meta.hdlr") IN
+         FieldTableSigs("C19", "progressive/meta-hdlr", b, -1,
+              << Fld("version-flags", 0, 4, Zeros(4)), Fld("pre_defined", 4, 4, Zeros(4)), Fld("handler_type", 8, 4, << 109, 100, 105, 114 >>),
+                 Fld("reserved", 16, 8, Zeros(8)) >>)
+         \cup (IF Len(b) < 25 \/ b[Len(b)] # 0 THEN {LSig("C19", "BoxLayout", "progressive/meta-hdlr", "name")} ELSE {})
+
 RawSigsFile(F, cfg, v, a) ==
     IF ~("raw" \in DOMAIN F) THEN {}
-    ELSE ProgressiveRawSigs(F, cfg, IF v = << >> THEN << >> ELSE v[1].src, v # << >>)
+    ELSE MetaHdlrSigs(F) \cup
+         ProgressiveRawSigs(F, cfg, IF v = << >> THEN << >> ELSE v[1].src, v # << >>)
          \cup WidthSigs("progressive", cfg, IF v = << >> THEN << >> ELSE v[1].src, v # << >>)
          \cup AudioWidthSigs("progressive", cfg)
 
